@@ -87,6 +87,8 @@ func (o *vOut) close() error {
 // output. Replays feed recorded operations to exec without gen.
 type vComp struct {
 	gen  func(o *vOut, r *vRand, thorough bool, args []string, emit func(op string))
+	// genR is like gen but its emit returns the implementation's output, for generators that adapt to it
+	genR func(o *vOut, r *vRand, thorough bool, args []string, emit func(op string) string)
 	exec func(o *vOut, toks []string) string
 }
 
@@ -119,7 +121,8 @@ func TestVerifHarness(t *testing.T) {
 	if err != nil {
 		t.Fatal(err)
 	}
-	emit := func(op string) {
+	vT = t
+	emit := func(op string) string {
 		res := func() (res string) {
 			defer func() {
 				if p := recover(); p != nil {
@@ -129,6 +132,7 @@ func TestVerifHarness(t *testing.T) {
 			return c.exec(o, strings.Split(op, " "))
 		}()
 		o.line(op, res)
+		return res
 	}
 	if ops := os.Getenv("VERIF_OPS"); ops != "" {
 		raw, err := os.ReadFile(ops)
@@ -142,7 +146,12 @@ func TestVerifHarness(t *testing.T) {
 			}
 		}
 	} else {
-		c.gen(o, &vRand{s: seed*0x2545F4914F6CDD1D + 1}, os.Getenv("VERIF_TIER") == "thorough", strings.Fields(os.Getenv("VERIF_ARGS")), emit)
+		rnd := &vRand{s: seed*0x2545F4914F6CDD1D + 1}
+		if c.genR != nil {
+			c.genR(o, rnd, os.Getenv("VERIF_TIER") == "thorough", strings.Fields(os.Getenv("VERIF_ARGS")), emit)
+		} else {
+			c.gen(o, rnd, os.Getenv("VERIF_TIER") == "thorough", strings.Fields(os.Getenv("VERIF_ARGS")), func(op string) { emit(op) })
+		}
 	}
 	if err := o.close(); err != nil {
 		t.Fatal(err)
